@@ -42,6 +42,7 @@ DECODE_Q = R("decode_q", "decode_q.cfg", expect_ops=["decode_wire", "encode_deco
 DECODE_T = R("decode_t", "decode_t.cfg", expect_ops=["decode_wire"], timeout=3000)
 
 SIG_Q = R("sig_q", "sig_q.cfg", rounds=3, expect_ops=["add_signature", "sign", "forge_signed", "obs_verify", "elide_set"])
+REMOVE_Q = R("remove_q", "remove_q.cfg", rounds=2, expect_ops=["remove_assertion", "replace_assertion", "replace_subject", "assertion_with_digest"])
 SIG_Q2 = R("sig_q2", "sig_q2.cfg", rounds=2, expect_ops=["add_signature", "sign", "obs_verify", "elide_set"])
 SIG_T = R("sig_t", "sig_t.cfg", rounds=2, timeout=3000, expect_ops=["add_signature", "sign", "forge_signed", "obs_verify", "elide_set", "uncompress", "encode_decode"])
 RECIPIENT_Q = R("recipient_q", "recipient_q.cfg", rounds=4, expect_ops=["encrypt_subject_to_recipients", "encrypt_to_recipient", "seal", "unseal", "add_recipient", "share_with", "decrypt_subject_to_recipient", "decrypt_to_recipient"],
@@ -79,8 +80,8 @@ FORGE_Q = R("forge_q", "forge_q.cfg", expect_ops=["forge_encrypted", "forge_comp
 PLAN = {
     "C01": dict(
         rule="every transition TLC explores in the bounded machine (all call sequences up to the depth bound over the listed action families, 2 registers, atoms a1,a2 + known value 1, plus every clear shape of <= 5 elements as input to the obscuring calls) is executed against the real library in several concretisation rounds (atoms -> typed values of every leaf CBOR type); the digest of the result and of every element of it must equal SHA-256 evaluated from the specification's digest term. non-trivial = distinct (call, expected result) pairs whose result has >= 2 elements or is an error",
-        quick=[CORE_ALL3, OBS_Q, TRACE_WALK, TRACE_ORDER],
-        thorough=[CORE_ALL3, CORE_T, OBS_Q, OBS_Q2, TRACE_WALK_T, TRACE_ORDER],
+        quick=[CORE_ALL3, OBS_Q, REMOVE_Q, TRACE_WALK, TRACE_ORDER],
+        thorough=[CORE_ALL3, CORE_T, OBS_Q, OBS_Q2, REMOVE_Q, TRACE_WALK_T, TRACE_ORDER],
     ),
     "C02": dict(
         rule="every shape of <= 5 elements x every target subset (<= 3 digests incl. an absent one) x both modes x {elide, encrypt, compress} and the whole-envelope calls, then a second obscuring call on the result; digests at every surviving position compared with the specification's terms",
@@ -101,8 +102,8 @@ PLAN = {
     ),
     "C07": dict(
         rule="all insertion sequences of the bounded machine; results compared with the order-free (set based) specification term, byte for byte",
-        quick=[CORE_Q, TWIN_Q, TRACE_ORDER],
-        thorough=[CORE_T, CORE_ALL3, TWIN_Q, TRACE_ORDER, TRACE_WALK_T],
+        quick=[CORE_Q, TWIN_Q, REMOVE_Q, TRACE_ORDER],
+        thorough=[CORE_T, CORE_ALL3, TWIN_Q, REMOVE_Q, TRACE_ORDER, TRACE_WALK_T],
     ),
     "C08": dict(
         rule="every shape (<= 4 elements, nodes of 5) x keys {k1,k2} x encrypt_subject / encrypt / elide_set(Encrypt), then a key-holding adversary (forge_encrypted: content vs declared digest mismatch for every register pair; tamper: ciphertext / nonce / tag / aad, random bit per round) or add_assertion / second encryption, then decrypt_subject / decrypt with each key",
